@@ -1,5 +1,17 @@
 """Property -> engines. Obligation membership is by the `props` tag on each spliced contract."""
 PROPS = {
+    'C01': dict(
+        level='proof',
+        verus=['patterns', 'lexing'],
+        kani_quick=[], kani_thorough=[],
+        unverified=[], assumptions=[],
+    ),
+    'C02': dict(
+        level='proof',
+        verus=['lexing'],
+        kani_quick=[], kani_thorough=[],
+        unverified=[], assumptions=[],
+    ),
     'C03': dict(
         level='proof',
         verus=['suggestion'],
